@@ -79,6 +79,14 @@ CHECKS = {
    text="spec/Manifold.tla is the equational theory of an orthogonal projector (linear, idempotent, fixes x) over terms in z, w, x with computed normal forms; TLC checks the laws on every enumerated term and base-point structure; each term is evaluated with the real routines and compared with its normal form, together with the scalar laws (self-adjoint, residual orthogonal), the rank law and riemannian_gradient = P(dense gradient) for three f.",
    note="Exploration: floats, sampled vectors; the model decides which expressions must agree.",
    technique="TLA+ equational theory with normal forms, TLC enumeration of terms, evaluation on torchtt against the normal form"),
+ "C15": dict(level=EX, design="§6 C15",
+   text="spec/Expr.tla is the typed program space of scalar-valued expressions over the differentiable TT operations (body x head x reducer) together with the choice of tracked cores; TLC enumerates every well-typed program; each is built on torchtt with watched cores and on dense arrays contracted from copies of the same leaves, and values, gradients (via grad.grad / grad.grad_list) and their shapes are compared, with a finite-difference cross-check.",
+   note="Exploration: the derivative oracle is torch autograd on the dense program and finite differences; the model contributes the exhaustive, typed program space.",
+   technique="TLA+ typed expression grammar, TLC enumeration of programs, execution on torchtt against dense autograd"),
+ "C17": dict(level=EX, design="§6 C17",
+   text="The check compiles the extension from /repo/cpp, then runs every fast_matvec / amen_solve configuration enumerated by TLC from spec/Configs.tla through both backends on identical inputs (all preconditioners, max_full 0/500, with and without initial guess): each backend must satisfy the C11 / C12 bound, arguments unchanged, and the results must agree within tolerance; the C++ rank_chop is transcribed in spec/ChopDefs.tla and checked against the contract by TLC.",
+   note="Exploration; no visibility inside the C++ sweeps; a failing build is reported as a violation ('accepts the same inputs').",
+   technique="TLC-enumerated configuration space x backend, both implementations executed side by side; TLA+ transcription of the C++ rank_chop"),
 }
 
 NA = {}
